@@ -118,6 +118,10 @@ def cmd_check(pid, tier):
     hashseeds = [0] if tier == "quick" else [0, 1, 2, 3, 7, 11, 101, 4242]
     scratch = tempfile.mkdtemp(prefix=f"verif-{pid}-")
     exit_code = 0
+    import glob
+
+    for old in glob.glob(os.path.join(VERIF, "replays", f"{pid}-*.json")):
+        os.unlink(old)
     try:
         # determinism gate: a few seeds twice in fresh interpreters, digests must agree
         gate = determinism_gate(pid, verif_seed, tier, scratch)
@@ -139,12 +143,19 @@ def cmd_check(pid, tier):
                 else:
                     violations.append(v)
         reported = []
+        by_class = {}
         for v in violations:
-            ok, tail = _fresh_replay(v["replay"])
-            if not ok:
-                errors.append(f"violation {v['class']} did not replay in a fresh interpreter: {v['replay']}\n{tail}")
-                continue
-            reported.append(v)
+            by_class.setdefault((tuple(v["class"]), json.dumps(v.get("signature"), sort_keys=True)), []).append(v)
+        for key in sorted(by_class)[:6]:
+            last_tail = ""
+            for v in by_class[key][:2]:
+                ok, last_tail = _fresh_replay(v["replay"])
+                if ok:
+                    reported.append(v)
+                    break
+            else:
+                errors.append(f"violation {key[0]} did not replay in a fresh interpreter: "
+                              f"{by_class[key][0]['replay']}\n{last_tail}")
         for kid, (k, v) in sorted(known_hits.items()):
             print(f"KNOWN-FINDING: property={pid} {k['what']} [id={kid} replay={v['replay']}]")
         seen = set()
